@@ -214,12 +214,25 @@ func RegisterSV(ld *Loaded) {
 		p.env[p.concreteString(args[1], "env name")] = p.concreteString(args[2], "env value")
 		return nil
 	})
+	reg("File", func(fr *frame, args []value) value {
+		p := fr.i.path
+		if p.files == nil {
+			p.files = map[string]value{}
+		}
+		p.nfiles++
+		name := fmt.Sprintf("/zzfile/%d-%s", p.nfiles, p.concreteString(args[1], "file label"))
+		p.files[name] = args[2]
+		return name
+	})
 	reg("StdoutStart", func(fr *frame, args []value) value {
 		fr.i.path.stdoutMark = len(fr.i.path.stdoutV)
 		return nil
 	})
 	reg("StdoutEnd", func(fr *frame, args []value) value {
 		p := fr.i.path
+		if p.stdoutApprox {
+			p.unsupported("captured output contains a composite value with symbolic leaves")
+		}
 		var out []value
 		for _, s := range p.stdoutV[p.stdoutMark:] {
 			out = append(out, strBytes(s)...)
